@@ -96,6 +96,9 @@ func listFault(kind string) (runtime.Object, error) {
 	switch kind {
 	case "error":
 		return nil, errListFault
+	case "errorlist":
+		// the way client-go's typed clients fail: a (usable, empty) list object together with the error
+		return kv.PodList(nil, "0"), errListFault
 	case "canceled":
 		// a transport-level abort: the error is context.Canceled although nobody is shutting down
 		return nil, fmt.Errorf("fake server: request aborted: %w", context.Canceled)
@@ -245,7 +248,7 @@ func runCtrlScenario(t *testing.T, tr *tracer, idx int, seed uint64, mode string
 		}
 		if mode == "c14" || (mode == "" && r.Chance(1, 6)) {
 			w.listFaultAt = 1 + r.Intn(4)
-			w.listFaultKind = kv.Pick(r, []string{"error", "canceled", "nil", "nonlist", "status", "nonobjects"})
+			w.listFaultKind = kv.Pick(r, []string{"error", "errorlist", "canceled", "nil", "nonlist", "status", "nonobjects"})
 		}
 		if mode == "c14" && w.listFaultAt >= 2 && r.Chance(1, 2) {
 			// the controller is busy (a filter that takes 2.5 periods during one sync) while the failing list and
@@ -254,6 +257,7 @@ func runCtrlScenario(t *testing.T, tr *tracer, idx int, seed uint64, mode string
 			w.period = kv.Pick(r, []time.Duration{10 * time.Second, time.Minute})
 		}
 		w.srv.RVStep = 1 + r.Intn(3)
+		w.srv.StaleList = r.Chance(1, 3) // a slow or gated list answers with what the server held when it was asked
 		emptyRV := mode == "" && !w.slowSync && w.listFaultAt == 0 && r.Chance(1, 10)
 		if emptyRV {
 			// a server whose lists carry no resource version of their own
@@ -294,6 +298,9 @@ func runCtrlScenario(t *testing.T, tr *tracer, idx int, seed uint64, mode string
 		if emptyRV {
 			tr.line(kv.L("emptyrv"))
 			w.srvEvent()
+		}
+		if w.srv.StaleList {
+			tr.line(kv.L("stalelist"))
 		}
 		for i := r.Intn(4); i > 0; i-- {
 			w.srvEvent()
